@@ -175,10 +175,11 @@ func checkC07(p *load.Program, r *kit.Report) {
 		var upd ssa.CallInstruction
 		for _, u := range updates {
 			a := u.Common().Args
-			if len(a) < 3 {
+			if len(a) < 2 {
 				continue // not the reference signature (reported by STREAM-SHAPE/params)
 			}
-			if a[1] == ssa.Value(call) && loadOfField(a[2], longestF) {
+			// two-argument form: sendBranchUpdate reads repo.longest itself (STREAM-SHAPE/range-start)
+			if a[1] == ssa.Value(call) && (len(a) == 2 || loadOfField(a[2], longestF)) {
 				upd = u
 			}
 		}
@@ -297,11 +298,20 @@ func checkSendBranchUpdate(p *load.Program, r *kit.Report, chF *types.Var) {
 		return
 	}
 	pos := posOf(p, f.Blocks[0].Instrs[0])
-	if len(f.Params) != 3 {
+	if len(f.Params) != 3 && len(f.Params) != 2 {
 		r.Unknown("STREAM-SHAPE", "sendBranchUpdate/params", pos, "unexpected signature")
 		return
 	}
-	branch, prev := f.Params[1], f.Params[2]
+	// the previous best branch is the second argument, or (two-parameter form) repo.longest read by
+	// sendBranchUpdate itself — the caller must then not have switched it yet (MUST-PASS in ProcessHeader)
+	branch := f.Params[1]
+	longestF := p.Field(H, "Repository", "longest")
+	isPrev := func(v ssa.Value) bool {
+		if len(f.Params) == 3 {
+			return v == ssa.Value(f.Params[2])
+		}
+		return longestF != nil && loadOfField(v, longestF)
+	}
 	lin := kit.NewLin(f)
 	var send *ssa.Send
 	kit.AllInstrs(f, func(in ssa.Instruction) {
@@ -339,7 +349,7 @@ func checkSendBranchUpdate(p *load.Program, r *kit.Report, chF *types.Var) {
 	} else {
 		fc, ic := finds[0].(*ssa.Call), inter[0].(*ssa.Call)
 		ia := ic.Call.Args
-		okInter := (ia[0] == ssa.Value(branch) && ia[1] == ssa.Value(prev)) || (ia[0] == ssa.Value(prev) && ia[1] == ssa.Value(branch))
+		okInter := (ia[0] == ssa.Value(branch) && isPrev(ia[1])) || (isPrev(ia[0]) && ia[1] == ssa.Value(branch))
 		if !okInter {
 			bad = "the fork point is not IntersectHash of the new and the previous best branch"
 		} else if recvPtr(fc.Call.Args[0]) != ssa.Value(branch) || !kit.DependsOn(fc.Call.Args[1], func(v ssa.Value) bool { return v == ssa.Value(ic) }) {
